@@ -288,6 +288,9 @@ SCHEMES = [
     ["synth_exit_latch_block_0", "synth_return_block_0", "synth_exit_block_0", "synth_head_block_0", "synth_tail_block_0"],
     ["loop_region_0", "head_region_0", "branch_region_0", "tail_region_0", "synth_fill_block_0"],
     ["synth_tail_block_0", "branch_region_1", "synth_asign_block_1", "loop_region_1", "meta_region_1"],
+    # indices with two digits next to the one-digit index that advances the counter up to them
+    ["synth_asign_block_9", "synth_asign_block_10", "synth_exit_latch_block_10", "synth_asign_block_11", "loop_region_10"],
+    ["synth_head_block_9", "synth_head_block_10", "head_region_9", "head_region_10", "synth_tail_block_10"],
 ]
 
 
@@ -337,7 +340,16 @@ def run_history(desc):
     def fail(sig, detail):
         fails.append({"kind": "history", "signature": sig, "detail": str(detail)[:300]})
 
-    g = SCFG({n: make_block(n, s, "basic", i) for i, (n, s) in enumerate(zip(names, desc["succ"]))})
+    blocks = {n: make_block(n, s, "basic", i) for i, (n, s) in enumerate(zip(names, desc["succ"]))}
+    if desc.get("vars"):
+        # one-successor input blocks become assignments to names inside the variable namespace
+        from numba_scfg.core.datastructures.basic_block import SyntheticAssignment
+
+        taken = ["__scfg_control_var_0__", "__scfg_exit_var_0__", "__scfg_backedge_var_0__"]
+        for n, b in list(blocks.items()):
+            if len(b._jump_targets) == 1:
+                blocks[n] = SyntheticAssignment(name=n, _jump_targets=b._jump_targets, variable_assignment={v: 0 for v in taken})
+    g = SCFG(blocks)
     issued_all = []
     issued_any = False
     for si, stage in enumerate(STAGES):
@@ -370,18 +382,19 @@ def run_history(desc):
 
 def space_c(N, entry=None):
     f, cubes, aux = s1_space(N, entry=entry)
-    sc, rl = z3.Int("scheme"), z3.Int("reload")
-    aux["scheme"], aux["reload"] = sc, rl
-    return z3.And(f, sc >= 0, sc < len(SCHEMES), rl >= -1, rl <= 2), [sc, rl, aux["e"]] + (aux["A"][:2] if N >= 4 else []), aux
+    sc, rl, vr = z3.Int("scheme"), z3.Int("reload"), z3.Int("vars")
+    aux["scheme"], aux["reload"], aux["vars"] = sc, rl, vr
+    return z3.And(f, sc >= 0, sc < len(SCHEMES), rl >= -1, rl <= 2, vr >= 0, vr <= 1), [sc, rl, vr, aux["e"]] + (aux["A"][:2] if N >= 4 else []), aux
 
 
 def harness_c(E, ctx, aux):
     d = realise_s1(E, aux)
     sc = E.realize(aux["scheme"])
     rl = E.realize(aux["reload"])
+    vr = E.realize(aux["vars"])
     N = aux["N"]
     m = {f"b{i}": SCHEMES[sc][i] for i in range(N)}
-    desc = {"kind": "history", "names": [m[n] for n in d["names"]], "succ": [[m[t] for t in s] for s in d["succ"]], "reload_before": rl}
+    desc = {"kind": "history", "names": [m[n] for n in d["names"]], "succ": [[m[t] for t in s] for s in d["succ"]], "reload_before": rl, "vars": vr}
     ctx.current = desc
     ctx.evaluations += 1
     fails, issued = run_history(desc)
